@@ -60,7 +60,7 @@ func ZZ_C11_DeleteSequence() {
 	r, err := zzOpenReplica()
 	zzAssume(err == nil)
 	r.mode = types.RW
-	names := []string{"d0", "d1", "d2", "d3", "d4", "d5"}
+	names := []string{"d0", "d1", "d1.img", "d3", "d4", "d5"} // d1 / d1.img: one disk name a prefix of the other
 	for i := 0; i < n; i++ {
 		buf := make([]byte, 4096)
 		buf[0] = byte(i + 1)
